@@ -62,19 +62,19 @@ func vh_RV() {
 	vCoverIf(vAnd(!resp.VoteGranted, req.Term >= pre.term), "refused")
 
 	// C02.vote1: a real vote goes to the candidate, in the request's term, only if no other vote was cast this term
-	vAssert(vImplies(granted, vAnd(post.votedFor == req.CandidateID, post.term == req.Term)), "C02|C08.vote-recorded")
-	vAssert(vImplies(granted, vOr(vOr(pre.votedFor == "", pre.votedFor == req.CandidateID), req.Term > pre.term)), "C02|C08.one-vote-per-term")
-	vAssert(vImplies(granted, vAnd(post.durVote == req.CandidateID, post.durTerm == req.Term)), "C02|C08.vote-durable-before-reply")
+	vAssert(vImplies(granted, vAnd(post.votedFor == req.CandidateID, post.term == req.Term)), "C01|C02|C08.vote-recorded")
+	vAssert(vImplies(granted, vOr(vOr(pre.votedFor == "", pre.votedFor == req.CandidateID), req.Term > pre.term)), "C01|C02|C07|C08.one-vote-per-term")
+	vAssert(vImplies(granted, vAnd(post.durVote == req.CandidateID, post.durTerm == req.Term)), "C01|C02|C07|C08.vote-durable-before-reply")
 	vAssert(vImplies(granted, resp.Term == req.Term), "C02.grant-reply-term")
 	// GA3 facts the sender-side harness (vh_SRV) assumes about replies
 	vAssert(vImplies(vAnd(resp.VoteGranted, req.Prevote), resp.Term <= req.Term), "C02|C16.prevote-grant-reply-term")
 	// G2: a recorded vote of an unchanged term is never replaced or cleared
-	vAssert(vImplies(vAnd(post.term == pre.term, pre.votedFor != ""), post.votedFor == pre.votedFor), "C02|C08.vote-stable(G2)")
+	vAssert(vImplies(vAnd(post.term == pre.term, pre.votedFor != ""), post.votedFor == pre.votedFor), "C01|C02|C07|C08.vote-stable(G2)")
 	// no grant for a stale term
 	vAssert(vImplies(resp.VoteGranted, req.Term >= pre.term), "C02|C08.no-grant-stale-term")
 
 	// C07.restrict / C08.uptodate: any grant (vote or prevote) needs an up-to-date candidate log
-	vAssert(vImplies(resp.VoteGranted, vUpToDate(req.LastLogTerm, req.LastLogIndex, pre.lastTerm, pre.lastIndex)), "C07|C08.up-to-date")
+	vAssert(vImplies(resp.VoteGranted, vUpToDate(req.LastLogTerm, req.LastLogIndex, pre.lastTerm, pre.lastIndex)), "C01|C04|C07|C08.up-to-date")
 
 	// C16.sticky: recent leader contact or a valid lease => nothing changes, nothing granted
 	if recent || leaseValid {
